@@ -63,7 +63,7 @@ class Check:
         """E6 summaries (value-flow normal form), shared by the rules of one run."""
         if self._terms is None:
             from .terms import TermEval
-            self._terms = TermEval(self.ix)
+            self._terms = TermEval(self.ix, self.cg)
         return self._terms
 
     def summary(self, cls_or_func, meth=None):
